@@ -180,6 +180,41 @@ func c12Inert(typ, mid, desc, out string) core.Result {
 	return core.Okay(true, "inert "+mid)
 }
 
+// carriers: Go values other than strings whose text (through Stringer) is the payload. The text is held in a
+// package variable (a worker runs one case at a time).
+var c12Carried string
+
+type c12SInt int
+type c12SI64 int64
+type c12SU8 uint8
+type c12SBool bool
+type c12SF64 float64
+type c12SF32 float32
+type c12SStruct struct{ n int }
+type c12SPtr struct{ n int }
+
+func (c12SInt) String() string    { return c12Carried }
+func (c12SI64) String() string    { return c12Carried }
+func (c12SU8) String() string     { return c12Carried }
+func (c12SBool) String() string   { return c12Carried }
+func (c12SF64) String() string    { return c12Carried }
+func (c12SF32) String() string    { return c12Carried }
+func (c12SStruct) String() string { return c12Carried }
+func (*c12SPtr) String() string   { return c12Carried }
+
+var c12Carriers = []func() stick.Value{
+	nil, // 0: the payload itself, a string
+	func() stick.Value { return c12SInt(7) },
+	func() stick.Value { return c12SI64(0) },
+	func() stick.Value { return c12SU8(200) },
+	func() stick.Value { return c12SBool(true) },
+	func() stick.Value { return c12SBool(false) },
+	func() stick.Value { return c12SF64(1.5) },
+	func() stick.Value { return c12SF32(2) },
+	func() stick.Value { return c12SStruct{1} },
+	func() stick.Value { return &c12SPtr{1} },
+}
+
 func c12Run(c core.Case) core.Result {
 	// N = [pos, form, payload, name (-1 inline, -2 inline with dot), mod]
 	pos, form, pi, ni, mod := c.N[0], c.N[1], c.N[2], c.N[3], c.N[4]
@@ -236,6 +271,10 @@ func c12Run(c core.Case) core.Result {
 		main = src
 	}
 	var val stick.Value = payload
+	if len(c.N) > 5 && c.N[5] > 0 {
+		c12Carried = payload
+		val = c12Carriers[c.N[5]]()
+	}
 	own := typ
 	if own == "" {
 		own = "txt"
@@ -267,6 +306,9 @@ func c12Run(c core.Case) core.Result {
 	desc += fmt.Sprintf(" with value %q", payload)
 	if mod >= 6 {
 		desc += fmt.Sprintf(" (%#v)", val)
+	}
+	if len(c.N) > 5 && c.N[5] > 0 {
+		desc += fmt.Sprintf(" (carried as the String() of a %T)", val)
 	}
 	if pan != "" {
 		return core.Violation("panic", desc+" panicked: "+pan)
@@ -359,6 +401,21 @@ func c12Levels(tier string) []core.Level {
 		{Name: "25 positions x 6 value forms x 13 payloads x 18 names x 10 modifiers (full product)", Gen: func(emit func(core.Case)) {
 			gen(all(len(c12Payloads)), all(len(c12Forms)), all(c12Mods), names, emit)
 		}},
+		{Name: "values that are not strings: 25 positions x {variable, function result} x 13 payloads carried as the String() of 9 Go types (named int, int64, uint8, bool true/false, float64, float32; struct; pointer) x 18 names x {none, raw, escape, escape('html'), escape(own type)}", Gen: func(emit func(core.Case)) {
+			for pos := 0; pos < c12Positions; pos++ {
+				for _, f := range []int{0, 2} {
+					for pi := range c12Payloads {
+						for _, ni := range names {
+							for m := 0; m <= 4; m++ {
+								for car := 1; car < len(c12Carriers); car++ {
+									emit(core.Case{Fam: "print", N: []int{pos, f, pi, ni, m, car}})
+								}
+							}
+						}
+					}
+				}
+			}
+		}},
 	}
 	return lv
 }
@@ -367,7 +424,7 @@ func init() {
 	core.Register(&core.Check{
 		ID:       "C12",
 		Category: "exploration",
-		Rule: "full product of 25 print positions (top level, if / else / elseif branch, for body, for-else, block, nested block, overriding block of a child, block via parent(), inherited block, included template, embedded template, embed override block, set-capture body, filter section, macro body, imported macro; macro result / capture / parent() / block() printed with |raw; html page including a js partial, js child overriding / inheriting a block of an html base) x 6 value forms (variable, attribute, function result, concatenation, conditional, interpolation) x 13 payloads (< > \" ' & </script> \\ ; newline, multi-byte, astral, mixed) x 18 template names (html, js, css, txt with and without .twig, no extension, unknown extension, trailing dot, inline sources without a dot, with dots, and ending in '.txt' / '.js' / '.css.twig') x 10 modifiers (none, raw, escape, escape('html'), escape(own type), escape('js'), escape('txt'), a chain of unknown strategies, value marked safe for the same / another type), in a twig.New environment. " +
+		Rule: "full product of 25 print positions (top level, if / else / elseif branch, for body, for-else, block, nested block, overriding block of a child, block via parent(), inherited block, included template, embedded template, embed override block, set-capture body, filter section, macro body, imported macro; macro result / capture / parent() / block() printed with |raw; html page including a js partial, js child overriding / inheriting a block of an html base) x 6 value forms (variable, attribute, function result, concatenation, conditional, interpolation) x 13 payloads (< > \" ' & </script> \\ ; newline, multi-byte, astral, mixed) x 18 template names (html, js, css, txt with and without .twig, no extension, unknown extension, trailing dot, inline sources without a dot, with dots, and ending in '.txt' / '.js' / '.css.twig') x 10 modifiers (none, raw, escape, escape('html'), escape(own type), escape('js'), escape('txt'), a chain of unknown strategies, value marked safe for the same / another type), in a twig.New environment; and the payloads carried as the String() of 9 non-string Go types (named numeric and bool kinds, struct, pointer). " +
 			"Oracle: expected content type = registered escaper of the extension, none for txt, html otherwise; a directly printed value must decode (decoder of that context) to the payload and lie in the context's inert alphabet: escaped exactly once; raw and same-type safe values verbatim; values reaching the output through a capture / macro result / parent() must be inert. distinct = distinct configuration; non-trivial = an assertion was made",
 		Assumptions: []string{
 			"for an explicit escape of another type (html inside js/css, js inside css, txt or an unknown strategy anywhere) 'exactly once' is ambiguous; only inertness for the template's own type is asserted, which the statement pins under either reading",
